@@ -38,6 +38,23 @@ def bar_scenarios(rng, n):
                                  'dur': {'kind': 'map', 'map': {}, 'default': rng.choice([0.05, 0.2])}}, nxt, {'op': 'apply_collect', 'of': 1}]
             sc['same_func'] = False
             sc['all_valid'] = True
+        elif rng.random() < .12:
+            # worker THREADS that are replaced at the very end of a call without a bar (lifespan reached with their last task) and are
+            # slow to get going: they come to life while the next call is already showing its bar
+            nj = rng.choice([2, 3])
+            sc['pool'] = {'n_jobs': nj, 'start_method': 'threading', 'keep_alive': True}
+            # (apply tasks are what makes the lifespan run out between two calls: nothing waits for the replacement then)
+            sc['ops'] = [{'op': 'map', 'n': nj, 'chunk_size': 1, 'worker_lifespan': 2, 'elem': 'scalar'},
+                         {'op': 'apply_batch', 'tasks': [{'idx': i} for i in range(nj)], 'dur': {'kind': 'map', 'map': {}, 'default': 0.01}, 'get_timeout': 30},
+                         {'op': 'sleep', 'd': rng.choice([0.02, 0.04, 0.06, 0.08])},
+                         {'op': rng.choice(['map', 'imap_unordered']), 'n': rng.randint(2, 6), 'chunk_size': 1, 'worker_lifespan': 2, 'progress_bar': True,
+                          'elem': 'scalar', 'dur': {'kind': 'hash', 'salt': rng.randint(0, 99), 'unit': 0.01}}]
+            sc['rules'] = [{'role': 'Worker-%d' % k, 'op': 'array.set', 'obj': 'results_received', 'sleep': rng.choice([0.05, 0.1, 0.15]), 'p': 1.0} for k in range(nj)]
+            # (the reset of its own "results received" counter is one of the first things a new worker does)
+            # … and the caller is slow between setting up the bar's manager and starting the thread that serves the bar
+            sc['rules'].append({'role': 'main', 'op': 'start', 'obj': None, 'sleep': 0.1, 'p': 1.0})
+            sc['same_func'] = True
+            sc['all_valid'] = True
         scs.append(sc)
     return scs
 
